@@ -147,7 +147,7 @@ def free_port():
 class Session:
     """One fzf process inside its own tmux server, driven through --listen."""
 
-    def __init__(self, fzf, args, lines, tmp, width=80, height=24, env=None, name=None, input_cmd=None):
+    def __init__(self, fzf, args, lines, tmp, width=80, height=24, env=None, name=None, input_cmd=None, wrap=None):
         self.sock = 'verif-%d-%s' % (os.getpid(), name or hex(random.getrandbits(32))[2:])
         self.port = free_port()
         self.tmp = tmp
@@ -162,6 +162,9 @@ class Session:
         envs = ' '.join("%s='%s'" % (k, v.replace("'", "'\\''")) for k, v in (env or {}).items())
         src = input_cmd or ("cat '%s'" % self.inp)
         script = "%s | env FZF_DEFAULT_OPTS= FZF_DEFAULT_COMMAND= %s %s > '%s' 2> '%s'; echo $? > '%s'" % (src, envs, quoted, self.out, self.err, self.rc)
+        if wrap:
+            # run the pipeline inside a larger script ({d} = the session directory)
+            script = wrap.replace('{d}', self.dir) % script
         self.script = script
         subprocess.run(['tmux', '-L', self.sock, '-f', '/dev/null', 'new-session', '-d', '-x', str(width), '-y', str(height), 'sh', '-c', script],
                        check=True, stdout=subprocess.DEVNULL, stderr=subprocess.DEVNULL)
@@ -307,7 +310,7 @@ DRIVERS = {'pipe': drv_pipe, 'race': drv_race}
 
 def run(name, tier, seed, ctx):
     if name not in DRIVERS:
-        import procs_tmux, procs_conv, procs_prev, procs_screen  # register the interactive drivers
+        import procs_tmux, procs_conv, procs_prev, procs_screen, procs_robust  # register the interactive drivers
     return DRIVERS[name](tier, seed, ctx)
 
 
@@ -326,6 +329,9 @@ def replay(rp, ctx):
     if pr.get('kind') == 'tmux-preview':
         import procs_prev
         return procs_prev.replay(rp, ctx)
+    if pr.get('kind') == 'tmux-robust':
+        import procs_robust
+        return procs_robust.replay(rp, ctx)
     if pr.get('kind') == 'tmux-screen':
         import procs_screen
         return procs_screen.replay(rp, ctx)
